@@ -132,3 +132,20 @@ Theorem C14_eigenvector_covariance_psd_forever :
   psd n (fst (fst (eigc_run p (cov, mu) hist))) /\ length (snd (fst (eigc_run p (cov, mu) hist))) = n.
 Proof. exact eigc_psd_forever. Qed.
 Print Assumptions C14_eigenvector_covariance_psd_forever.
+
+(** Refuted for the code as it is (known finding D33, `bounded_eigenvector_corner_stall`): the
+    premise of the retry-mass theorems - an admissible segment of positive length - fails at a
+    corner of the box for a direction that leaves the box both ways: the set of admissible
+    displacements of the rejection loop of [BoundedEigenvector._jump] is the single point 0, so no
+    draw is ever accepted (the implementation's face tolerance widens it to ~1e-5, i.e. ~1e5
+    expected draws).  Witness: the box [-3,5]x[0,1], the corner (-3,1), the direction (1,1). *)
+Theorem C14_bounded_eigenvector_corner_refuted :
+  exists lo1 hi1 lo2 hi2 x y vx vy : R,
+    lo1 < hi1 /\ lo2 < hi2 /\ lo1 <= x <= hi1 /\ lo2 <= y <= hi2 /\ (vx <> 0 \/ vy <> 0)
+    /\ forall t, t <> 0 -> ~ (lo1 <= x + t * vx <= hi1 /\ lo2 <= y + t * vy <= hi2).
+Proof.
+  exists (-3), 5, 0, 1, (-3), 1, 1, 1.
+  split; [lra|]. split; [lra|]. split; [lra|]. split; [lra|]. split; [left; lra|].
+  intros t Ht [H1 H2]. destruct (Rtotal_order t 0) as [Hn|[Hz|Hp]]; lra.
+Qed.
+Print Assumptions C14_bounded_eigenvector_corner_refuted.
